@@ -133,6 +133,7 @@ type Machine struct {
 	allocated  int
 	pendingObs []pendingObs
 	pathNo     int
+	region     string
 }
 
 func NewMachine(prog *ssa.Program, cfg Config) (*Machine, error) {
@@ -533,6 +534,7 @@ func (m *Machine) RunPath(fn *ssa.Function, initPkgs []*ssa.Package, trace []Dec
 	m.backings = nil
 	m.allocated = 0
 	m.pendingObs = nil
+	m.region = ""
 	m.dead = false
 	m.imprecise = 0
 	m.initDone = map[*ssa.Package]bool{}
